@@ -23,9 +23,9 @@ import (
 	"github.com/pdfcpu/pdfcpu/pkg/pdfcpu/model"
 	"verif/core"
 	"verif/engine"
+	"verif/pdfgen"
 	"verif/simclock"
 	"verif/simfs"
-	"verif/pdfgen"
 )
 
 // B is the statement-level bound for "promptly": work units (ReadSeeker calls, further polls) the
@@ -61,20 +61,20 @@ type pollSite struct {
 }
 
 type simCtx struct {
-	flipAtPoll int // 0 = never by poll count
-	match      *pollSite
-	polls      int
-	cancelled  bool
-	done       chan struct{}
-	rs         *countRS
+	flipAtPoll               int // 0 = never by poll count
+	match                    *pollSite
+	polls                    int
+	cancelled                bool
+	done                     chan struct{}
+	rs                       *countRS
 	pollsAtFlip, readsAtFlip int
-	firstSeen  bool // a poll has returned non-nil
-	pollsAfter, readsAtSeen int
-	siteCount  map[string]int
-	flipSite   pollSite
-	seenAt     time.Time
-	callsNow   func() int // file leg: number of file-system events so far (instead of rs.calls)
-	reason     error // what Err() reports once the context has ended: Canceled, or DeadlineExceeded (its simulated deadline passes at the flip)
+	firstSeen                bool // a poll has returned non-nil
+	pollsAfter, readsAtSeen  int
+	siteCount                map[string]int
+	flipSite                 pollSite
+	seenAt                   time.Time
+	callsNow                 func() int // file leg: number of file-system events so far (instead of rs.calls)
+	reason                   error      // what Err() reports once the context has ended: Canceled, or DeadlineExceeded (its simulated deadline passes at the flip)
 }
 
 func newSimCtx() *simCtx {
@@ -87,7 +87,7 @@ func (c *simCtx) Deadline() (time.Time, bool) {
 	}
 	return time.Time{}, false
 }
-func (c *simCtx) Value(any) any               { return nil }
+func (c *simCtx) Value(any) any { return nil }
 
 func (c *simCtx) cancel() {
 	if !c.cancelled {
@@ -158,10 +158,10 @@ type countRS struct {
 	ctx        *simCtx
 	// a Read call is addressed by (offset of the last Seek, occurrence of that Seek offset, Reads since):
 	// the call number is not stable across runs (objects are dereferenced in map order), the triple is
-	seekOcc    map[int64]int
-	sinceSeek  int
-	matchIO    *ioSite
-	flipIO     ioSite
+	seekOcc   map[int64]int
+	sinceSeek int
+	matchIO   *ioSite
+	flipIO    ioSite
 }
 
 type ioSite struct {
@@ -417,22 +417,22 @@ func doReadFile(b []byte, flipAtPoll int, reason string) (out readOutcome, leake
 
 // C10Unit: one document and mode.
 type C10Unit struct {
-	Doc   docSpec `json:"doc"`
-	MaxK  int     `json:"max_k"` // cap on enumerated polls (0 = all)
-	IO    int     `json:"io_points"`
-	Seed  int64   `json:"seed"`
+	Doc  docSpec `json:"doc"`
+	MaxK int     `json:"max_k"` // cap on enumerated polls (0 = all)
+	IO   int     `json:"io_points"`
+	Seed int64   `json:"seed"`
 }
 
 // C10Replay payload.
 type C10Replay struct {
-	Doc        docSpec   `json:"doc"`
-	Mode       string    `json:"mode"` // poll | io | pre-cancel | pre-deadline | pre-sim
-	Reason     string    `json:"reason,omitempty"` // "" = cancelled, "deadline" = the simulated deadline passes
-	K          int       `json:"k_hint,omitempty"`
-	Site       *pollSite `json:"poll_site,omitempty"`
-	N          int       `json:"io_call,omitempty"`
-	IOSite     *ioSite   `json:"io_site,omitempty"`
-	MapSalt    uint64    `json:"map_salt,omitempty"`
+	Doc     docSpec   `json:"doc"`
+	Mode    string    `json:"mode"`             // poll | io | pre-cancel | pre-deadline | pre-sim
+	Reason  string    `json:"reason,omitempty"` // "" = cancelled, "deadline" = the simulated deadline passes
+	K       int       `json:"k_hint,omitempty"`
+	Site    *pollSite `json:"poll_site,omitempty"`
+	N       int       `json:"io_call,omitempty"`
+	IOSite  *ioSite   `json:"io_site,omitempty"`
+	MapSalt uint64    `json:"map_salt,omitempty"`
 }
 
 var quickDocs = []docSpec{
